@@ -58,8 +58,10 @@ DISCRETE_CLS = ["OrthogonalMooreGrid", "OrthogonalVonNeumannGrid", "HexGrid"]
 class _G:
     """generator-side bookkeeping (what probably exists), only to make most operations meaningful"""
 
-    def __init__(self, rng, impl, cls, dims):
+    def __init__(self, rng, impl, cls, dims, cap=0):
         self.rng, self.impl, self.cls, self.dims = rng, impl, cls, list(dims)
+        self.cap = cap
+        self.multi = "Multi" in cls
         self.handles = []          # (name, dt, dims)
         self.grid = {}             # name -> handle
         self.agents = {}           # id -> coord
@@ -192,26 +194,53 @@ class _G:
             self.ops.append(["modcells", ref, form, f, hasval, self.cond(dt) if self.rng.random() < 0.5 else None])
 
     def op_agent(self):
+        """place / move / move_relative / remove; also the rejected ones (occupied SingleGrid cell, full cell,
+        no cell in that direction)"""
         r = self.rng
-        if self.cls == "MultiGrid":
-            return
         k = r.random()
-        if k < 0.5 or not self.agents:
-            c = r.choice(self.coords)
-            if self.impl == "legacy" and any(v == c for v in self.agents.values()) and r.random() < 0.7:
+        single = self.impl == "legacy" and not self.multi
+
+        def count(c):
+            return sum(1 for v in self.agents.values() if v == c)
+
+        def accepts(c, a=None):
+            others = sum(1 for b, v in self.agents.items() if v == c and b != a)
+            if single:
+                return others == 0
+            if self.impl == "discrete" and self.cap:
+                return others < self.cap or self.agents.get(a) == c
+            return True
+
+        if k < 0.45 or not self.agents:
+            c = list(r.choice(self.coords))
+            if not accepts(c) and r.random() < 0.6:
                 return
             a = self.next_agent
             self.next_agent += 1
-            self.ops.append(["place", a, list(c)])
-            if self.impl == "discrete" or not any(v == c for v in self.agents.values()):
-                self.agents[a] = list(c)
-        elif k < 0.8:
+            self.ops.append(["place", a, c])
+            if accepts(c):
+                self.agents[a] = c
+        elif k < 0.7:
             a = r.choice(list(self.agents))
-            c = r.choice(self.coords)
-            if self.impl == "legacy" and any(v == c and b != a for b, v in self.agents.items()):
+            c = list(r.choice(self.coords))
+            if not accepts(c, a) and r.random() < 0.5:
                 return
-            self.ops.append(["move", a, list(c)])
-            self.agents[a] = list(c)
+            self.ops.append(["move", a, c])
+            if accepts(c, a):
+                self.agents[a] = c
+        elif k < 0.82 and self.impl == "discrete" and self.cls != "HexGrid":
+            a = r.choice(list(self.agents))
+            nd = len(self.dims)
+            d = [r.choice([-1, 0, 0, 1]) for _ in range(nd)]
+            if r.random() < 0.5:
+                d = [0] * nd
+                d[r.randrange(nd)] = r.choice([-1, 1])
+            self.ops.append(["mrel", a, d])
+            moore = self.cls == "OrthogonalMooreGrid"
+            nz = sum(1 for x in d if x)
+            t = [x + y for x, y in zip(self.agents[a], d)]
+            if (nz >= 1 if moore else nz == 1) and all(0 <= x < m for x, m in zip(t, self.dims)) and accepts(t, a):
+                self.agents[a] = t
         else:
             a = r.choice(list(self.agents))
             self.ops.append(["rm", a])
@@ -315,15 +344,16 @@ def _random_case(rng, impl=None, n_ops=None):
         cls = rng.choice(DISCRETE_CLS[:2] if len(dims) != 2 else DISCRETE_CLS)
     else:
         dims = rng.choice(GRIDS_LEGACY)
-        cls = "SingleGrid" if rng.random() < 0.8 else "MultiGrid"
-    g = _G(rng, impl, cls, dims)
+        cls = rng.choice(["SingleGrid", "SingleGrid", "MultiGrid", "MultiGrid", "HexSingleGrid", "HexMultiGrid"])
+    cap = rng.choice([0, 0, 0, 1, 1, 2]) if impl == "discrete" else 0
+    g = _G(rng, impl, cls, dims, cap)
     for _ in range(rng.choice([1, 2, 2, 3])):
         g.add_new_layer(attach=True)
     n_ops = n_ops or rng.randint(6, 20)
     menu = [g.op_write] * 4 + [g.op_set] * 3 + [g.op_modify] * 4 + [g.op_agent] * 4 + [g.op_layers] * 3 + [g.op_select] * 6
     while len(g.ops) < n_ops:
         rng.choice(menu)()
-    return {"impl": impl, "cls": cls, "dims": list(dims), "ops": g.ops}
+    return {"impl": impl, "cls": cls, "dims": list(dims), "cap": cap, "ops": g.ops}
 
 
 def gen_cases(rng, tier):
@@ -508,6 +538,8 @@ class _Run:
         self.case = case
         self.impl = case["impl"]
         self.discrete = self.impl == "discrete"
+        self.multi = "Multi" in case["cls"]
+        self.cap = case.get("cap") or 0
         self.dims = tuple(case["dims"])
         self.coords = list(itertools.product(*(range(d) for d in self.dims)))
         self.model = mesa.Model(seed=1)
@@ -518,13 +550,14 @@ class _Run:
                 from mesa.discrete_space.property_layer import PropertyDescriptor, PropertyLayer
 
                 self.PL, self.PD = PropertyLayer, PropertyDescriptor
-                self.grid = getattr(ds, case["cls"])(self.dims, torus=False, random=random.Random(1))
+                self.grid = getattr(ds, case["cls"])(self.dims, torus=False, capacity=(case.get("cap") or None),
+                                                     random=random.Random(1))
                 self.handles = [self.grid._mesa_property_layers["empty"]]
             else:
-                from mesa.space import MultiGrid, PropertyLayer, SingleGrid
+                import mesa.space as msp
 
-                self.PL = PropertyLayer
-                self.grid = {"SingleGrid": SingleGrid, "MultiGrid": MultiGrid}[case["cls"]](self.dims[0], self.dims[1], False)
+                self.PL = msp.PropertyLayer
+                self.grid = getattr(msp, case["cls"])(self.dims[0], self.dims[1], False)
                 self.handles = []
         self.agents = {}      # id -> agent object (ever created)
         # the oracle's shadow: what the statement says the values are
@@ -727,7 +760,7 @@ def _exc_kind(e):
 SITE = {"add": "add_property_layer", "create": "add_property_layer", "remove": "remove_property_layer",
         "lwrite": "set_cell", "modcell": "modify_cell", "modcells": "modify_cells", "set": "set_cells",
         "setarr": "set_cells", "select": "select_cells", "place": "place_agent", "cellwrite": "cell-write",
-        "move": "move_agent", "rm": "remove_agent", "new": "PropertyLayer"}
+        "move": "move_agent", "mrel": "move_relative", "rm": "remove_agent", "new": "PropertyLayer"}
 
 
 def run_impl(case):
@@ -945,11 +978,19 @@ def run_impl(case):
                     result = ("ok", [len(gl)] + [x for c in gl for x in c])
                 else:
                     result = ("ok", [int(gm_arr[c]) for c in R.coords])
-            elif kind in ("place", "move", "rm"):
+            elif kind in ("place", "move", "mrel", "rm"):
                 a = op[1]
-                if case["cls"] == "MultiGrid":
-                    result = ("skip",)
-                elif kind == "place":
+
+                def others(c):
+                    return sum(1 for b, v in R.sh_agents.items() if v == c and b != a)
+
+                def rejects(c):
+                    """the statement's side: does cell c refuse agent a"""
+                    if discrete:
+                        return bool(R.cap) and others(c) >= R.cap
+                    return (not R.multi) and others(c) > 0
+
+                if kind == "place":
                     c = tuple(op[2])
                     if c not in R.coords or a in R.sh_agents:
                         result = ("skip",)
@@ -960,11 +1001,11 @@ def run_impl(case):
 
                             R.agents[a] = CellAgent(R.model) if discrete else mesa.Agent(R.model)
                         ag = R.agents[a]
+                        if rejects(c):
+                            expect_err = E_EXC
                         if discrete:
                             ag.cell = R.grid._cells[c]
                         else:
-                            if c in R.sh_agents.values():
-                                expect_err = E_EXC
                             R.grid.place_agent(ag, c)
                         R.sh_agents[a] = c
                         result = ("ok", [])
@@ -972,15 +1013,37 @@ def run_impl(case):
                     c = tuple(op[2])
                     if c not in R.coords or a not in R.sh_agents:
                         result = ("skip",)
-                    elif not discrete and any(v == c and b != a for b, v in R.sh_agents.items()):
-                        result = ("skip",)
                     else:
                         ag = R.agents[a]
+                        if rejects(c) and R.sh_agents[a] != c:
+                            expect_err = E_EXC
                         if discrete:
-                            ag.cell = R.grid._cells[c]
+                            if sum(c) % 2:
+                                ag.cell = R.grid._cells[c]
+                            else:
+                                ag.move_to(R.grid._cells[c])
                         else:
                             R.grid.move_agent(ag, c)
                         R.sh_agents[a] = c
+                        result = ("ok", [])
+                elif kind == "mrel":
+                    d = tuple(op[2])
+                    if not discrete or a not in R.sh_agents or case["cls"] == "HexGrid":
+                        result = ("skip",)
+                    else:
+                        ag = R.agents[a]
+                        c0 = R.sh_agents[a]
+                        t = tuple(x + y for x, y in zip(c0, d))
+                        nzc = sum(1 for x in d if x)
+                        moore = case["cls"] == "OrthogonalMooreGrid"
+                        ok_dir = (len(d) == len(c0) and all(-1 <= x <= 1 for x in d)
+                                  and (nzc >= 1 if moore else nzc == 1) and t in R.grid._cells)
+                        if not ok_dir:
+                            expect_err = E_VALUE
+                        elif rejects(t):
+                            expect_err = E_EXC
+                        ag.move_relative(d)
+                        R.sh_agents[a] = t
                         result = ("ok", [])
                 else:
                     if a not in R.sh_agents:
@@ -995,7 +1058,7 @@ def run_impl(case):
                         result = ("ok", [])
             else:
                 raise ValueError(f"unknown op {op}")
-            if discrete and kind in ("place", "move", "rm"):
+            if discrete and kind in ("place", "move", "mrel", "rm"):
                 occ = set(R.sh_agents.values())
                 R.sh[0] = {c: int(c not in occ) for c in R.coords}
             # the call returned
@@ -1095,8 +1158,10 @@ def _op(case, op):
         exts = L.lst([L.pair(L.z(n), L.z(m)) for n, m in op[2]])
         masks = L.lst([L.lst([L.b(x) for x in m]) for m in op[3]])
         return f"Select {conds} {exts} {masks} {L.b(op[4])} {L.b(op[5])}"
-    if case["cls"] == "MultiGrid":
-        return "Skip"
+    if k == "mrel":
+        if case["impl"] != "discrete" or case["cls"] == "HexGrid":
+            return "Skip"
+        return f"MoveRel {L.z(op[1])} {L.zlist(op[2])} {L.b(case['cls'] == 'OrthogonalMooreGrid')}"
     if k == "place":
         return f"Place {L.z(op[1])} {L.zlist(op[2])}"
     if k == "move":
@@ -1108,7 +1173,8 @@ def _op(case, op):
 
 def coq_case(case):
     ops = L.lst([_op(case, o) for o in case["ops"]])
-    return f"{{| c_discrete := {L.b(case['impl'] == 'discrete')}; c_dims := {L.zlist(case['dims'])}; c_ops := {ops} |}}"
+    return (f"{{| c_discrete := {L.b(case['impl'] == 'discrete')}; c_multi := {L.b('Multi' in case['cls'])}; "
+            f"c_cap := {L.z(case.get('cap') or 0)}; c_dims := {L.zlist(case['dims'])}; c_ops := {ops} |}}")
 
 
 def op_kinds(case):
